@@ -138,6 +138,14 @@ var histProgs = []string{
 	"let t={k0:0,k1:10,k2:20,k3:30,k4:40,k5:50,k6:60,k7:70,k8:80,k9:90,k10:100,k11:110}; t.put(\"n\"+a, b).size()+(t+{z:a}).z+t.k7+t.accept((k,v)->v>a*10).size()*100",
 	"let t={k0:0,k1:10,k2:20,k3:30,k4:40,k5:50,k6:60,k7:70,k8:80,k9:90,k10:100,k11:110}; src.map(x->t.get(\"k\"+x%12)+a).reduce((p,q)->p+q)+t.k1*b",
 	"let t={k0:0,k1:10,k2:20,k3:30,k4:40,k5:50,k6:60,k7:70,k8:80,k9:90,k10:100,k11:110}; let u=t.map((k,v)->v+a); u.k2+u.k11+t.k2",
+	// index access on lazy lists inside the closures of stages that keep their arguments on the stack,
+	// with the indexed table itself a lazy constant of that kind (nested lazy evaluation)
+	"let t=[10,20,30].number((j,y)->j*y); src.number((i,x)->t[i%3]+x)[a%3]",
+	"let t=numbers(5).combine((p,q)->p*q); numbers(4).iir(x->t[x], (x,l)->t[x%4]+l)[b%4]+t[a%4]",
+	"let t=numbers(6).iir(x->x,(x,l)->x+l); src.combine((p,q)->t[p%6]+q)[a%2]",
+	"let t=[3,1,2].number((j,y)->[j,y]); numbers(3).number((i,x)->t[i][1]+x)[a%3]+t[b%3][0]",
+	"let t=numbers(4).combine3((p,q,r)->p+q+r); let u=numbers(5).number((i,x)->i*x); numbers(3).fsm((s,x)->goto((s.state+u[x]+t[x%2])%3)).map(s->s.state)[a%3]",
+	"let t=numbers(5).compact((p,q)->p=q).number((i,x)->x*x); if a%2=0 then src.number((i,x)->t[i%5]+x)[0] else t[b%5]",
 }
 
 func genHistArgs(r *rng) []Arg {
@@ -366,6 +374,13 @@ var c09DeriveMap = []string{
 	"m.put(\"k2\", i)",
 }
 
+// operations that only read (their result is dropped): the operands must look the same afterwards
+var c09ReadOnly = []string{
+	"h ~ g", "g ~ h", "[v, i] ~ h", "h.top(3) ~ g", "h.reverse() ~ h", "[h.last(), h.first()] ~ h", "h.order(x->0-x) ~ h",
+	"h = g", "h.size()", "h.string()", "h.first()", "h.last()", "h.reduce((p,q)->p+q)", "h.minMax(x->x)", "h.present(x->x=v)", "h[i%(h.size()+1)]",
+	"h.indexWhere(x->x>v)", "h.mean()", "h.sum()", "v ~ h", "h.top(2) = g.top(2)", "h.multiUse({a:l->l.size(), b:l->l.first()})",
+}
+
 // keys the map operations above can create: looked up one by one by the lookup observer
 const c09LookupObserver = `["a","b","c","k0","k1","k2","zz","yy","p","q","w","l","mm","inner","n5","n6","n7","n100","o0","o1","o2","o3","o7","rm5","rm6","rm7","rm100","c0","c1","c5","c7","c9","z"].map(k->[m.isAvail(k), try m.get(k) catch "none", k ~ m])`
 
@@ -476,6 +491,13 @@ func genC09(r *rng, tier string) *Case {
 			}
 			ops = append(ops, Op{Kind: "eval", Fn: fn(text, names...), Args: args, Consume: 0, Store: slot + 1})
 			isMap[slot] = true
+		} else if len(lists) > 0 && r.chance(0.15) {
+			// a read-only operation on two of the lists: nothing is stored, everything is observed again
+			a, b := pick(r, lists...), pick(r, lists...)
+			args := []Arg{{K: "handle", I: a}, {K: "handle", I: b}, {K: "int", I: i}, {K: "int", I: v}}
+			ops = append(ops, Op{Kind: "eval", Fn: fn(pick(r, c09ReadOnly...), "h", "g", "i", "v"), Args: args, Consume: -1})
+			observeAll()
+			continue
 		} else if len(lists) > 0 {
 			text := pick(r, c09Derive...)
 			// bias to branching from the same parent
